@@ -10,6 +10,12 @@ import os
 import sys
 import traceback
 
+# Every random choice must derive from VERIF_SEED alone: pin Python's string-hash randomisation so that
+# iteration over sets of strings/tuples in the generators is the same on every run (replayable cases).
+if os.environ.get("PYTHONHASHSEED") != "0":
+    os.environ["PYTHONHASHSEED"] = "0"
+    os.execv(sys.executable, [sys.executable] + sys.argv)
+
 sys.path.insert(0, os.path.dirname(os.path.abspath(__file__)))
 from vlib.common import Ctx, log  # noqa: E402
 
